@@ -68,7 +68,7 @@ Proof. split; [eexists; split; [vm_compute; reflexivity|split; vm_compute; refle
 (* Model/Commit.v declares the monad notation "_ ;; _" at another level than stdpp: the file-system models are
    required, not imported, and their names are written qualified *)
 From Rocfl Require Model.FsTree Model.Commit Corr.CheckCommit Model.ObjTree Model.TreeValidate.
-From Rocfl Require Import Model.FsOps Model.CommitAbs Proofs.CommitAbsMain Proofs.CommitAbsWitness.
+From Rocfl Require Import Model.FsOps Model.CommitAbs Proofs.CommitAbsMain Proofs.CommitAbsPurge Proofs.CommitAbsWitness.
 
 Theorem C01_commit_yields_written_object :
   forall (aseg : fseg -> oseg), (forall x y, aseg x = aseg y -> x = y) ->
@@ -127,3 +127,25 @@ Proof.
   split; [exact w_pre1|]. split; [exact w_pre2|]. split; [exact w_aseg_inj|]. split; [exact w_reach|].
   split; [exact w_written2|]. rewrite w_result2. reflexivity.
 Qed.
+
+(** purge (fs.rs purge_object of the main store, [purge_main]): it succeeds, nothing is left at or below the object
+    root, every ancestor directory that is still there is not empty (the emptied ones are gone), and nothing that is
+    neither in the object nor an ancestor of it changes *)
+Theorem C01_purge_leaves_nothing :
+  forall mo t, twf t -> mo <> [] -> FsTree.lookup t mo = Some FsTree.Dir -> Commit.is_object_rootb t mo = true ->
+    let t' := Commit.run_tree (purge_main mo) t Commit.NoInj in
+    fst (Commit.run (purge_main mo) t Commit.NoInj) = Commit.ROk tt /\ twf t'
+    /\ (forall x, under mo x = true -> FsTree.lookup t' x = None)
+    /\ (forall q, q <> [] -> under q (FsTree.parent mo) = true -> FsTree.lookup t' q = Some FsTree.Dir ->
+                  FsTree.has_children t' q = true)
+    /\ (forall x, under mo x = false -> under x mo = false -> FsTree.lookup t' x = FsTree.lookup t x).
+Proof. exact purge_main_spec. Qed.
+Print Assumptions C01_purge_leaves_nothing.
+
+(** non-vacuity: the two-version object of the example above is purged; its parent directory, which held nothing
+    else, goes with it *)
+Example C01_purge_nonvacuous :
+  twf_b w_after2 = true /\ FsTree.lookup w_after2 CheckCommit.ex_mo = Some FsTree.Dir
+  /\ Commit.is_object_rootb w_after2 CheckCommit.ex_mo = true
+  /\ Commit.none_under (Commit.run_tree (purge_main CheckCommit.ex_mo) w_after2 Commit.NoInj) w_rootdir = true.
+Proof. vm_compute. repeat split. Qed.
